@@ -88,3 +88,21 @@ func VerifLegacyRow(id string, cols map[string]interface{}) error {
 
 // VerifJobRemove removes whatever jobs carry the tag (end-of-case cleanup).
 func VerifJobRemove(id string) { _ = s.RemoveByTag(id) }
+
+// VerifJobSchedule returns what gocron holds for the one job tagged with the alert id: the interval in seconds
+// (AddCronJob schedules with Every(n).Second()) and the name of the job's function.
+func VerifJobSchedule(id string) (int64, string, error) {
+	jobs, err := s.FindJobsByTag(id)
+	if err != nil {
+		return 0, "", err
+	}
+	if len(jobs) != 1 {
+		return 0, "", fmt.Errorf("%d cron jobs for alert %s", len(jobs), id)
+	}
+	v := reflect.ValueOf(jobs[0]).Elem()
+	iv, fn := v.FieldByName("interval"), v.FieldByName("funcName")
+	if !iv.IsValid() || iv.Kind() != reflect.Int || !fn.IsValid() || fn.Kind() != reflect.String {
+		return 0, "", fmt.Errorf("gocron.Job has no interval / funcName field")
+	}
+	return iv.Int(), fn.String(), nil
+}
